@@ -32,16 +32,17 @@ namespace BitSerializer
 			}
 
 			// Load existing items
-			bool value = false;
 			size_t loadedItems = 0;
 			for (auto it = cont.begin(); it != cont.end() && !archive.IsEnd(); ++it, ++loadedItems)
 			{
+				bool value = *it;
 				Serialize(archive, value);
 				*it = value;
 			}
 			// Load all left items
 			for (; !archive.IsEnd(); ++loadedItems)
 			{
+				bool value = false;
 				Serialize(archive, value);
 				cont.push_back(value);
 			}
